@@ -6,8 +6,9 @@ Layer U (every line parser meeting an explicit contract `CloseIndep`: a top-leve
 the child closed by the end-of-input line at the same position): re-parsing the Source of a root delivered by a `NextBlock` call
 that started with no pending blocks yields exactly one root with the same tree (`reparse_fresh_call`). Layer B: `closeIndepB` -
 the model of the real block parser meets that contract for the LEAF root kinds (paragraph, setext heading, fenced and indented
-code, HTML block, ATX heading, thematic break); paragraphs that begin with `[` need `ParaCloseLocal` (closing a paragraph does not
-look at the following line; open, fuzzed without counterexample). Lifted to the model of `Parse` (`C16_parse`): the re-parsed root
+code, HTML block, ATX heading, thematic break); `paraCloseLocal` (closing a paragraph does not look at the following line: the
+reader of the definition parser sees the same on `s ++ u` as on `s`; 8 further proof files) removed the hypothesis the first
+version carried for paragraphs beginning with `[`. Lifted to the model of `Parse` (`C16_parse`): the re-parsed root
 has the same FINAL tree under the document's reference map, because Rewrite is a function of (Source, block-phase tree, matcher).
 Observable forms of "no pending blocks": the first root, and any root that does not start where the previous one ends.
 Not covered by a theorem (relational oracle on the implementation): container roots (block quotes, lists), roots that start
@@ -21,38 +22,40 @@ open CM CM.Model CM.Proofs CM.Proofs.Rp
     root - offsets 0..len(Source), line 1, the same tree - and then end of input. -/
 theorem C16_blocks_drain (x : PExt) {inp : Bytes} (hnn : NoNul inp) (F n : Nat) (r : Root)
     (hr : (drain (blocksLP x) F (memParser inp) []).1[n]? = some r)
-    (hbl : (stateBefore (blocksLP x) inp n).blocks = []) (hgood : Good x r.block) (hgood2 : Good2 x r.source r.block)
-    (f : Nat) :
+    (hbl : (stateBefore (blocksLP x) inp n).blocks = []) (hgood : Good x r.block) (f : Nat) :
     ∃ r' pB, drain (blocksLP x) (f + 2) (memParser r.source) [] = ([r'], .err .eof, pB) ∧ Reparsed r r' :=
-  Rp.C16_blocks_drain x hnn F n r hr hbl hgood hgood2 f
+  Rp.C16_blocks_drain x hnn F n r hr hbl hgood f
 
 /-- The first root of every document. -/
 theorem C16_blocks_first (x : PExt) {inp : Bytes} (hnn : NoNul inp) (F : Nat) (r : Root)
-    (hr : (drain (blocksLP x) F (memParser inp) []).1[0]? = some r) (hgood : Good x r.block)
-    (hgood2 : Good2 x r.source r.block) (f : Nat) :
+    (hr : (drain (blocksLP x) F (memParser inp) []).1[0]? = some r) (hgood : Good x r.block) (f : Nat) :
     ∃ r' pB, drain (blocksLP x) (f + 2) (memParser r.source) [] = ([r'], .err .eof, pB) ∧ Reparsed r r' :=
-  Rp.C16_blocks_first x hnn F r hr hgood hgood2 f
+  Rp.C16_blocks_first x hnn F r hr hgood f
 
 /-- Every root separated from the previous one by blank lines. -/
 theorem C16_blocks_gap (x : PExt) {inp : Bytes} (hnn : NoNul inp) (F n : Nat) (rp r : Root)
     (hrp : (drain (blocksLP x) F (memParser inp) []).1[n]? = some rp)
     (hr : (drain (blocksLP x) F (memParser inp) []).1[n + 1]? = some r) (hgap : r.startOffset ≠ rp.endOffset)
-    (hgood : Good x r.block) (hgood2 : Good2 x r.source r.block) (f : Nat) :
+    (hgood : Good x r.block) (f : Nat) :
     ∃ r' pB, drain (blocksLP x) (f + 2) (memParser r.source) [] = ([r'], .err .eof, pB) ∧ Reparsed r r' :=
-  Rp.C16_blocks_gap x hnn F n rp r hrp hr hgap hgood hgood2 f
+  Rp.C16_blocks_gap x hnn F n rp r hrp hr hgap hgood f
 
 /-- The same for the model of `Parse`, including the inline phase: the re-parsed root rewrites to the same final tree. -/
 theorem C16_parse (x : PExt) (ix : IExt) {inp : Bytes} (hnn : NoNul inp) (n : Nat) (pr : ParsedRoot)
     (hpr : (parseDoc x ix inp).roots[n]? = some pr)
-    (hbl : (stateBefore (blocksLP x) inp n).blocks = []) (hgood : Good x pr.root.block)
-    (hgood2 : Good2 x pr.root.source pr.root.block) (f : Nat) :
+    (hbl : (stateBefore (blocksLP x) inp n).blocks = []) (hgood : Good x pr.root.block) (f : Nat) :
     ∃ r' pB, drain (blocksLP x) (f + 2) (memParser pr.root.source) [] = ([r'], .err .eof, pB) ∧ Reparsed pr.root r' ∧
       Inl.rewriteE ix r'.source r'.source.toArray (fun k => ((parseDoc x ix inp).refs.lookup k).isSome) (pbToTree r'.block) =
         pr.tree :=
-  Rp.C16_parse x ix hnn n pr hpr hbl hgood hgood2 f
+  Rp.C16_parse x ix hnn n pr hpr hbl hgood f
 
 /-- The model of the real block parser meets the layer-U contract for the leaf kinds. -/
 theorem closeIndepB (x : PExt) : CloseIndep (blocksLP x) (sessB x) (Good x) (Good2 x) SameTree := Rp.closeIndepB x
+
+/-- Closing a top-level paragraph does not look at the line after it (the definition parser peeks at most at the first byte
+    after the text, and the outcome does not depend on it): the hypothesis the first version of these theorems carried for
+    paragraphs beginning with `[` is a theorem. -/
+theorem paraCloseLocal (x : PExt) : ParaCloseLocal x := Rp.paraCloseLocal x
 
 /-- Equality of the internal records (rather than of the exported trees) is false. -/
 theorem record_equality_false : ¬ C16_blocks_record_target := C16_blocks_record_target_false
